@@ -9,6 +9,7 @@ CONSTANTS
   Glitches = {"dataerr", "temperr", "shortwrite"}
   Cuts = {"cuteof", "cutrst"}
   CutPos = {0, 1, 2}
+  Delays = {}
   Bufs = {1, 2}
 INIT Init
 NEXT Next
